@@ -19,6 +19,10 @@ pub enum Ev {
 
 pub type Log = Arc<Mutex<Vec<Ev>>>;
 
+/// "short read" mode of the recording transport: every read of the client returns at most this many bytes
+/// (0 = no limit). Set per operation (`seq@K`, `wf@K`); a correct client must behave identically.
+pub static MAX_READ: std::sync::atomic::AtomicUsize = std::sync::atomic::AtomicUsize::new(0);
+
 pub fn push(log: &Log, ev: Ev) {
     let mut l = log.lock().unwrap();
     match (&ev, l.last_mut()) {
@@ -50,7 +54,18 @@ pub struct Rec<S> {
 impl<S: AsyncRead + Unpin> AsyncRead for Rec<S> {
     fn poll_read(mut self: Pin<&mut Self>, cx: &mut Context<'_>, buf: &mut ReadBuf<'_>) -> Poll<std::io::Result<()>> {
         let before = buf.filled().len();
-        let r = Pin::new(&mut self.inner).poll_read(cx, buf);
+        let k = MAX_READ.load(std::sync::atomic::Ordering::Relaxed);
+        let r = if k > 0 && buf.remaining() > k {
+            let mut tmp = vec![0u8; k];
+            let mut rb = ReadBuf::new(&mut tmp);
+            let r = Pin::new(&mut self.inner).poll_read(cx, &mut rb);
+            if let Poll::Ready(Ok(())) = &r {
+                buf.put_slice(rb.filled());
+            }
+            r
+        } else {
+            Pin::new(&mut self.inner).poll_read(cx, buf)
+        };
         if let Poll::Ready(Ok(())) = &r {
             let n = buf.filled().len() - before;
             if n > 0 {
